@@ -67,6 +67,10 @@ type view struct {
 	// it is met itself or as the end of an alias chain; a chain that merely
 	// passes through it is not affected.
 	redir map[pdf.Reference]pdf.Native
+	// tolerant: a read error that is not a malformed-file error is recorded
+	// (the file under test was written by the library) instead of being fatal
+	tolerant bool
+	readErr  string
 }
 
 type cached struct {
@@ -86,7 +90,14 @@ func newView(g pdf.Getter, tab *dataTab, override map[pdf.Reference]pdf.Native) 
 		o, err := g.Get(r, true)
 		if err != nil {
 			if !pdf.IsMalformed(err) {
-				panic(fmt.Sprintf("harness: unexpected read error: %v", err))
+				if v.tolerant {
+					// e.g. "corrupted ciphertext": the object cannot be read
+					if v.readErr == "" {
+						v.readErr = fmt.Sprintf("object %v: %v", r, err)
+					}
+				} else {
+					panic(fmt.Sprintf("harness: unexpected read error: %v", err))
+				}
 			}
 			v.cache[r] = cached{nil, false}
 			return nil, false
@@ -1546,6 +1557,7 @@ func execCase(e *common.Env, id string, cfg caseCfg) {
 		return
 	}
 	dstView := newView(dst, tab, nil)
+	dstView.tolerant = true
 
 	var dstRoots []pdf.Object
 	for i, c := range calls {
@@ -1571,6 +1583,10 @@ func execCase(e *common.Env, id string, cfg caseCfg) {
 		e.Line("impl.obs", "%s ok - | %s", id, ct)
 	}
 	e.Sample(3, map[string]any{"case": ms.String(), "target": ct})
+	if dstView.readErr != "" {
+		e.Fail("target-object-unreadable", "an object of the reopened target cannot be read: "+dstView.readErr, caseInfo)
+		return
+	}
 
 	if outsideHyp {
 		return
